@@ -248,7 +248,7 @@ pub fn check_in(f: &F, names: &Names, g: &SymbolicAsyncGraph, outer: &HashMap<St
         }
         // the same substitution through the multi-formula entry point, as a list [rewritten, original, True] (three
         // trees of different heights): every position must carry the answer of ITS formula
-        if first_case && (f.size() <= 3 || (f.qdepth() >= 2 && f.size() >= 9)) {
+        if first_case && (f.size() <= 2 || (f.qdepth() >= 2 && f.size() >= 9)) {
             // (small formulae and the larger templates) ... and with the pre-computed results travelling through a result archive (written with build_result_archive, read
             // back with load_bdd_bundle - the tool's `-o` then `-e` workflow) before they are substituted
             n += 1;
